@@ -53,9 +53,22 @@ def r1_harness_coverage(ctx):
         ctx.check(len(consumers) == 1, 'exec-consumed:%s' % f.key, 'the outcome of every harness execution is inspected (catch/pass)', s.where())
 
 
+def _payload_field(P):
+    """role: the Harness field that holds the caught unwind payload (Option<Box<dyn Any + Send>>)"""
+    a = P.adts.get(H)
+    for v in (a or {}).get('variants', []):
+        for fd in v['fields']:
+            if fd['ty'].startswith('std::option::Option<std::boxed::Box<(dyn std::any::Any'):
+                return fd['n']
+    return None
+
+
 def r2_harness(ctx):
     ctx.set_rule('C13.R2')
     P = ctx.P
+    PF = _payload_field(P)
+    if not ctx.check(PF is not None, 'payload-role', 'the harness has a field holding the caught unwind payload', None, PF):
+        return
     fe = ctx.anchor(H + '::exec')
     if fe:
         cu = [s for s in fe.calls() if s.name == 'std::panic::catch_unwind']
@@ -68,7 +81,7 @@ def r2_harness(ctx):
                     if s.callee and ('FnOnce' in s.callee or 'call_once' in s.callee):
                         calls_f = True
             ctx.check(calls_f, 'closure-under-catch_unwind', 'the callback runs inside the catch_unwind scope', cu[0].where())
-            w = fe.writes_to_field('unwind')
+            w = fe.writes_to_field(PF)
             okw = any(any(x[0] == 'call' and x[1] == 'std::panic::catch_unwind' for x in walk(fe.expr_rvalue(st['r'], b, i))) for b, i, st in w)
             ctx.check(okw, 'payload-recorded', 'the unwind payload is recorded in the harness', fe.where())
     fc = ctx.anchor(H + '::catch')
@@ -79,7 +92,7 @@ def r2_harness(ctx):
         if outcome != 'return':
             continue
         atoms = [a for _, a in path_atoms(fc, path, decs)]
-        unw = next((a[2] for a in atoms if a[0] == 'is' and a[1][0] == 'field' and a[1][2] == 'unwind'), None)
+        unw = next((a[2] for a in atoms if a[0] == 'is' and a[1][0] == 'field' and a[1][2] == PF), None)
         effs = path_effects(fc, path)
         deact = [e for e in effs if e[0] == 'c' and e[1].name == 'std::sync::atomic::Atomic::store' and
                  any(x[0] == 'field' and x[2] == 'active' for x in walk(e[2][0])) and e[2][1] == ('int', 0)]
@@ -100,7 +113,7 @@ def r2_harness(ctx):
                 if is_err:
                     pe = [x for x in walk(ret) if x[0] == 'agg' and x[1].endswith('PanicError::PanicError')]
                     okp = bool(pe) and any(x[0] == 'call' and x[1].endswith('ModuleContext::path') for x in walk(pe[0])) and \
-                        any(x[0] == 'field' and x[2] == 'unwind' for x in walk(pe[0]))
+                        any(x[0] == 'field' and x[2] == PF for x in walk(pe[0]))
                     ctx.check(okp, 'error-attributed', "the PanicError names the panicking module's path and carries the payload", fc.where_path(path))
         else:
             ctx.check(not deact and not is_err, 'no-unwind-no-effect', 'without a panic the harness reports success and leaves the module active', fc.where_path(path))
@@ -111,7 +124,7 @@ def r2_harness(ctx):
             if outcome != 'return':
                 continue
             atoms = [a for _, a in path_atoms(fp, path, decs)]
-            unw = next((a[2] for a in atoms if a[0] == 'is' and a[1][0] == 'field' and a[1][2] == 'unwind'), None)
+            unw = next((a[2] for a in atoms if a[0] == 'is' and a[1][0] == 'field' and a[1][2] == PF), None)
             ret = path_ret(fp, path)
             is_err = ret is not None and ret[0] == 'agg' and ret[1].endswith('Result::Err')
             ctx.check(is_err == (unw == 'Some'), 'pass-table', 'Harness::pass reports an error iff the callback panicked', fp.where_path(path))
@@ -366,6 +379,11 @@ def teardown_reaches_all(ctx, rule):
                         fresh = [t for t in (t0, t1) if t[0] == 'call' and t[1].endswith('RuntimeError::empty')]
                         other = [t for t in (t0, t1) if t not in fresh]
                         if fresh and other and other[0] == subj:
+                            dead = True
+                    if s.name == 'std::mem::replace' and s.b in path:
+                        t0 = canon(peel(f.expr_operand(s.args[0], s.b, 'T')))
+                        t1 = canon(peel(f.expr_operand(s.args[1], s.b, 'T')))
+                        if t1[0] == 'call' and t1[1].endswith('RuntimeError::empty') and t0 == subj:
                             dead = True
         if dead:
             continue
